@@ -1,5 +1,6 @@
 import Proofs.C15
-import Proofs.Gen
+import Proofs.GenPartial
+import Proofs.GenTables
 #print axioms Xsel.C15.exec_result_or_error
 #print axioms Xsel.C15.build_total
 #print axioms Xsel.C15.truncated_json_is_error
